@@ -80,10 +80,12 @@ CHECKS['C15'] = dict(
    technique='Coq proof (explicit regex scanner, tree induction) + differential correspondence', ref='§6 C15')
 CHECKS['C03'] = dict(
    text='Theorems: the process() result contract (None sends nothing, lone Frame = main, {} delivered as a complete empty set, id carried from input to output, a deferred result is evaluated only by the '
-        'send_maybe that publishes, at most once); MQGlue model compared with the real MQ.send/recv/process_frames; chain/tee/tee-rejoin/join pipelines of REAL filters run in deterministic pipeline mode '
-        'and compared with the functional reference.',
-   note=PROTO_NOTE + ' The lossless-edge and chain-composition theorems over the network model are not proved (partial): explored in pipeline mode.',
-   technique='Coq proof (contract lemmas over the glue and sender machines) + differential correspondence + pipeline-mode exploration against a functional reference', ref='§5, §6 C03')
+        'send_maybe that publishes, at most once); THE LOSSLESS EDGE by refinement (C03_edge_lossless, C03_edge_nothing_dropped: for every interleaving of deliveries, poll answers, calls, timeouts and clock '
+        'values a synchronized subscribe-all consumer fed in order by a well-formed publisher is handed exactly the first k published frames - ids, topics, payloads - and all of them once its socket is drained); '
+        'MQGlue model compared with the real MQ.send/recv/process_frames; the real ZMQReceiver run on schedules machine-checked to satisfy the edge theorem hypotheses; chain/tee/tee-rejoin/join pipelines of REAL '
+        'filters run in deterministic pipeline mode and compared with the functional reference.',
+   note=PROTO_NOTE + ' The chain-composition theorem over the network model is not proved (partial): explored in pipeline mode.',
+   technique='Coq proof (refinement of the receiver machine to a three-counter abstract consumer; contract lemmas over the glue and sender machines) + differential correspondence + pipeline-mode exploration against a functional reference', ref='§5, §6 C03')
 CHECKS['C04'] = dict(
    text='Theorems: a publish un-requests every client it is sent to, the gate opens only when every tracked synchronized client has asked, clients leave the wait set only by CLOSE/timeout, a receiver '
         'issues requests only from recv(); machines compared with the real classes; stalled-consumer pipelines of real filters measured in pipeline mode (bounded, flat in run length).',
